@@ -20,8 +20,11 @@ def _desc(S, C, kind, rng):
           if kind == "grid" else
           {"type": "graph", "nodes": [{"vol": {"bare": 1.0}, "env": 0, "units": ["µm", "s", "molecule"]} for _ in range(C)],
            "edges": [], "units": ["µm", "s", "molecule"]})
-    if kind == "grid" and C == 4 and rng.random() < 0.5:
-        sp.update(w=2, h=2)
+    if kind == "grid":
+        # any factorisation of the cell count into three axes (the coordinate forms below then exercise both strides)
+        fs = [(w, h, C // (w * h)) for w in range(1, C + 1) if C % w == 0 for h in range(1, C // w + 1) if (C // w) % h == 0]
+        w, h, d = rng.choice(fs)
+        sp.update(w=w, h=h, d=d)
     return {"envs": ["e0"], "net_units": ["µm", "s", "molecule"], "sys_units": ["µm", "s", "molecule"],
             "species": [{"label": "ABCDE"[k], "units": ["µm", "s", "molecule"], "D": {"scalar": {"bare": 0.0}},
                          "dens": {"scalar": {"bare": 0.0}}, "chstt": {"scalar": False}} for k in range(S)],
@@ -56,14 +59,23 @@ def observe(c):
         if sp["type"] != "grid":
             return cell
         xyz = (cell % sp["w"], (cell // sp["w"]) % sp["h"], cell // (sp["w"] * sp["h"]))
-        return [cell, xyz, _Pos(*xyz)][k % 3]
+        import numpy as np
+        f = (0.25, 0.5, 0.75)[k % 3]
+        forms = [lambda: cell, lambda: xyz, lambda: _Pos(*xyz), lambda: list(xyz),
+                 # coordinates as numpy rows of narrow and wide integer types (a sum formed before widening would wrap)
+                 lambda: np.array(xyz, dtype=np.uint8), lambda: np.array(xyz, dtype=np.int16), lambda: np.array(xyz, dtype=np.int64),
+                 lambda: np.array(xyz, dtype=np.float64), lambda: np.int64(cell),
+                 # a point inside the cell: the grid's own bounds test and index both truncate coordinate by coordinate
+                 lambda: (xyz[0] + f, xyz[1] + f, xyz[2] + f), lambda: _Pos(xyz[0] + f, xyz[1] + f, xyz[2] + f),
+                 lambda: np.array([xyz[0] + f, xyz[1] + f, xyz[2] + f], dtype=np.float32)]
+        return forms[k % len(forms)]()
     o = {"points": [], "states": [], "wholes": [], "trajs": [], "merged": [], "lookups": []}
     k = 0
     for n in range(N):
         for s in range(S):
             for cell in range(C):
                 k += 1
-                r = tr.get_trajectory_point(sref(s, k), n, cref(cell, k // 3))
+                r = tr.get_trajectory_point(sref(s, k), n, cref(cell, k))
                 chk(r.units)
                 o["points"].append(float(r.value))
     for n in range(N):
@@ -78,7 +90,7 @@ def observe(c):
     for s in range(S):
         for cell in range(C):
             k += 1
-            r = tr.get_trajectory(sref(s, k), cref(cell, k // 3))
+            r = tr.get_trajectory(sref(s, k), cref(cell, k))
             chk(r.units)
             o["trajs"].append([float(v) for v in r.value])
         r = tr.get_trajectory(sref(s, k), merge=True)
@@ -202,6 +214,15 @@ def gen_cases(rng, tier):
             cases.append({"N": N, "S": S, "C": C, "desc": _desc(S, C, kind, rng), "data": data, "dunits": sysgen.rand_sys(rng),
                           "ts": ts, "tunits": tunits, "queries": rand_queries(rng, ts, tunits, strict), "strict": strict,
                           "scribble": rng.random() < 0.4})
+    # grids with more than 255 cells and both strides above one (narrow coordinate types, fractional coordinates)
+    for (w, h, d) in ((16, 17, 1), (7, 6, 7)):
+        N, S, C = rng.randint(1, 2), rng.randint(1, 2), w * h * d
+        desc = _desc(S, C, "grid", rng)
+        desc["space"].update(w=w, h=h, d=d)
+        ts = [float(i) for i in range(N)]
+        tunits = ["µm", "s", "molecule"]
+        cases.append({"N": N, "S": S, "C": C, "desc": desc, "data": [float(i) for i in range(N * S * C)], "dunits": sysgen.rand_sys(rng),
+                      "ts": ts, "tunits": tunits, "queries": rand_queries(rng, ts, tunits, True), "strict": True, "scribble": False})
     # empty trajectories
     for kind in ("grid", "graph"):
         cases.append({"N": 0, "S": 1, "C": 2, "desc": _desc(1, 2, kind, rng), "data": [], "dunits": ["µm", "s", "molecule"],
@@ -237,7 +258,8 @@ def check(run):
     run.exhaustive = True
     run.extra["exhaustive_scope"] = "all shapes (N,S,C) with each <= %d, grid and graph systems, every (species, sample, cell) triple" % maxn
     run.rule = ("exhaustive over shapes N,S,C <= %d x {grid, graph}: every triple through get_trajectory_point / get_state / get_trajectory "
-                "(species by index, label, object; cell by index, tuple, x/y/z object in rotation), whole-state and merged accessors; "
+                "(species by index, label, object; cell by index, tuple, list, x/y/z object, numpy rows of uint8 / int16 / int64 / float64, numpy integer, "
+                "points inside the cell as tuple / object / float32 row, in rotation; grids of every factorisation of the cell count plus 16x17x1 and 7x6x7), whole-state and merged accessors; "
                 "sample times strictly increasing or with duplicates, queries before / after / on / between samples and midpoints, "
                 "bare and in other time units (only where conversion rounding cannot flip the answer), three policies (closest only on "
                 "strictly increasing times). One case = one trajectory; non-trivial = more than one value" % maxn)
